@@ -554,6 +554,7 @@ static int pad_pkcs2(bn_t m, size_t *p_len, size_t m_len, size_t k_len,
 					for (int i = m_len - 1; i < 8 * k_len; i++) {
 						bn_set_bit(m, i - ((RLC_MD_LEN + 1) * 8), 0);
 					}
+					bn_trim(m);
 					if (r == 1 && bn_is_zero(m)) {
 						result = RLC_OK;
 					}
@@ -897,11 +898,7 @@ int cp_rsa_ver(uint8_t *sig, size_t sig_len, const uint8_t *msg, size_t msg_len,
 
 #if CP_RSAPD == PKCS2
 	size = bn_bits(pub->crt->n) - 1;
-	if (size % 8 == 0) {
-		size = size / 8 - 1;
-	} else {
-		size = bn_size_bin(pub->crt->n);
-	}
+	size = (size / 8) + (size % 8 > 0);
 	if (pad_len > (size - 2)) {
 		return 0;
 	}
